@@ -251,7 +251,8 @@ Definition handle (e : env) (s : state) (m : msg) : hres :=
   | MRemoveAllowedDenom a denom => h_remove_allowed_denom e s a denom
   | MGovSetFeeParams a fees => h_gov_set_fee_params e s a fees
   | MGovSendFromFeePool a recipient coins => h_gov_send_from_fee_pool e s a recipient coins
-  | MBankSend from to coins => s' <- send_coins from to coins s ;; ret s' REmpty
+  | MBankSend from to coins =>
+      if blocked_addr to then LErr LUnauthorized else s' <- send_coins from to coins s ;; ret s' REmpty
   | MUnimplemented _ => LErr LUnimplemented
   end.
 
